@@ -199,3 +199,25 @@ def matches_known(k, op, il, mres, tag):
     if k.get("id") != "F5" or f[1] != "retry" or int(f[3]) >= 0:
         return False
     return " ORIG " in tag and il == tag.split(" ORIG ", 1)[1]
+
+
+
+# ---- T-gen: the lock span of tokencache.(*Cache).GetKey (tools/extractlocks -> Relic/Generated/Locks.lean); the obligation
+# heldThroughout (first statement takes c.mu, second defers its release, no other lock operation in the body) is what lets
+# one call be one atomic step of the cache model, so that pinned_key_never_stale covers overlapping lookups
+def generate(ctx):
+    import os
+    import runner as _r
+    tool = _r.build_tool("extractlocks")
+    gen = os.path.join(_r.LEAN, "Relic", "Generated", "Locks.lean")
+    tmp = gen + ".tmp." + str(os.getpid())
+    r = _r.sh([tool, _r.REPO, tmp])
+    if r.returncode != 0 or not os.path.exists(tmp):
+        raise _r.Broken("extractlocks failed on token/tokencache/cache.go", r.stdout[-2000:])
+    new = open(tmp).read()
+    old = open(gen).read() if os.path.exists(gen) else None
+    if new != old:
+        os.replace(tmp, gen)
+    else:
+        os.remove(tmp)
+    return ["Relic.Props.C15.cache_getKey_atomic_generated"]
